@@ -33,3 +33,11 @@ package oc
 //@ func OverwriteNeighborConfigWithPeerGroup
 //@   claims at-call
 //@   at-call ^overwriteConfig(&c.GracefulRestart.Config requires arg2 == "neighbor.graceful-restart.config"
+
+// from C08 "hold time min(local, remote) (0 disables keepalives, 1-2 is refused) ... the OPEN sent reflects the
+// configuration": the OPEN has 16 bits for the hold time; a configured value is either 0 or one the field can carry and
+// RFC 4271 4.2 allows (at least 3 seconds) - anything else is refused when the neighbour is configured, it is not
+// truncated into the field while the local side goes on computing with the full value
+//@ func setDefaultNeighborConfigValuesWithViper
+//@   claims at-call
+//@   at-call v.IsSet("neighbor.timers.config.keepalive-interval") requires called(validateHoldTime)
